@@ -191,7 +191,7 @@ func verifK_NoFCReceiver() {
 	})
 	verifDrain()
 	// tearing the stream down releases an accept that is parked on the full queue (and never deadlocks with it)
-	verifAssert(accDone && closeDone, "C04+C09+C12+C14+C15.k-nofc-teardown-releases-a-blocked-accept")
+	verifAssert(accDone && closeDone, "C04+C07+C09+C12+C14+C15.k-nofc-teardown-releases-a-blocked-accept")
 	// (no send on a closed channel, no double close: panic obligations; nobody left hanging: deadlock obligation)
 	for i, id := range got {
 		verifAssert(id == i+1, "C01+C11.k-nofc-fifo-prefix")
